@@ -408,6 +408,32 @@ func (c08) Eval(t *testing.T, c *Case, dec func(int) *Decider) *Outcome {
 			}
 		}
 	}
+	// a table on which every statement failed (or that was never targeted) must not
+	// be rewritten by the final COMMIT: same bytes, same inode
+	if e, _ := isErr(commitIdx); !e {
+		for ti, tb := range []string{"t0", "t1"} {
+			touched := false
+			for i, st := range meta.Steps {
+				if st.Kind != "stmt" || !mentions(st.Src, tb) {
+					continue
+				}
+				if failedStmt, _ := isErr(i); !failedStmt {
+					touched = true
+				}
+			}
+			if touched {
+				continue
+			}
+			f := sc.Files[ti]
+			if got, ok := res.Final[f.Name]; !ok || got.Data != f.Content {
+				o.viol(prop, "commit", "untouched-table-rewritten", fmt.Sprintf("every statement on %s failed, yet COMMIT changed its bytes", tb))
+			} else if b, a := res.StartIDs[f.Name], res.FinalIDs[f.Name]; b.ino != a.ino {
+				o.viol(prop, "commit", "untouched-table-rewritten", fmt.Sprintf("every statement on %s failed, yet COMMIT replaced the file (inode %d -> %d)", tb, b.ino, a.ino))
+			} else {
+				o.Stats.probe("untouched-table-identical")
+			}
+		}
+	}
 	o.NonTrivial = o.Stats.Probes["failed-statement-checked"] > 0
 	o.Sample = map[string]interface{}{"seed": c.Seed, "statements": sc.Procs[0].Statements, "cancels": sc.Cancels, "cpu": sc.Procs[0].CPU, "rows": meta.Rows}
 	return o
@@ -422,4 +448,16 @@ func stmtVerb(errs []string) string {
 		return f[0] + "-" + f[1]
 	}
 	return f[0]
+}
+
+// mentions reports whether a statement text refers to table tb as a word.
+func mentions(src, tb string) bool {
+	for _, w := range strings.FieldsFunc(src, func(r rune) bool {
+		return !(r >= 'a' && r <= 'z' || r >= 'A' && r <= 'Z' || r >= '0' && r <= '9' || r == '_')
+	}) {
+		if w == tb {
+			return true
+		}
+	}
+	return false
 }
